@@ -130,6 +130,7 @@ structure OSt where
   failed : Bool := false
   all : Nat := 0             -- RSV bits an application extension puts on every frame
   size : Option Nat := none  -- last Size() the harness reported (constructor, av, g, rs)
+  touched : Bool := false    -- Write / WriteThrough / ReadFrom called since the last completed Flush, Reset or ResetOp
   deriving Repr
 
 /-- Check the frames emitted by one op against the writer contract; returns error or new state. -/
@@ -164,13 +165,13 @@ def oStep (st : OSt) (tok res : String) (writes : List Bytes) : Except String OS
     -- bytes newly accepted by this op
     let st1 : Except String OSt :=
       match t with
-      | ["w", p] => .ok { st with pending := st.pending ++ (hexOr p).take n }
-      | ["wt", p] => .ok { st with pending := st.pending ++ (hexOr p).take n }
-      | ["rf", _, hex, _] => .ok { st with pending := st.pending ++ (hexOr hex).take n }
-      | ["rs", sd, op] => .ok { st with client := sd == "C", op := natOr op, ext := none, pending := [], inMsg := false, noFlush := false, size := some n, all := 0 }
+      | ["w", p] => .ok { st with pending := st.pending ++ (hexOr p).take n, touched := true }
+      | ["wt", p] => .ok { st with pending := st.pending ++ (hexOr p).take n, touched := true }
+      | ["rf", _, hex, _] => .ok { st with pending := st.pending ++ (hexOr hex).take n, touched := true }
+      | ["rs", sd, op] => .ok { st with client := sd == "C", op := natOr op, ext := none, pending := [], inMsg := false, noFlush := false, size := some n, all := 0, touched := false }
       | ["av"] => .ok { st with size := some n }
       | ["g", _] => .ok { st with size := some n }
-      | ["ro", op] => .ok { st with op := natOr op, pending := [], inMsg := false }
+      | ["ro", op] => .ok { st with op := natOr op, pending := [], inMsg := false, touched := false }
       | ["se", x] => .ok { st with ext := parseExt x, all := parseAll x }
       | ["nf"] => .ok { st with noFlush := true }
       | _ => .ok st
@@ -191,10 +192,12 @@ def oStep (st : OSt) (tok res : String) (writes : List Bytes) : Except String OS
       | .error e => .error e
       | .ok st2 =>
         if t == ["fl"] && res == "nil" then
-          if st2.inMsg then .error "message-not-finished-by-Flush"
+          -- "If no Write() or ReadFrom() was made, then Flush() does nothing."
+          if !frames.isEmpty && !st1.touched && !st1.inMsg && st1.pending.isEmpty then .error "message-sent-by-Flush-though-nothing-was-written"
+          else if st2.inMsg then .error "message-not-finished-by-Flush"
           else if !st2.pending.isEmpty then .error "accepted-bytes-lost-at-Flush"
           else if st1.noFlush && frames.length > 1 then .error "noflush-message-not-a-single-frame"
-          else .ok st2
+          else .ok { st2 with touched := false }
         else if st1.noFlush && t.head? == some "w" && !frames.isEmpty then .error "write-sent-bytes-with-flush-disabled"
         else .ok st2
 
